@@ -43,7 +43,18 @@ var cmtText = map[string]string{
 	"c2": "# pint disable promql/rate",
 }
 
-var labText = map[string]string{"l1": "1", "l2": "2"}
+// label variants: l3 is a strict superset of l1 (removing b from l3 gives l1)
+var labText = map[string]string{
+	"l1": "      a: \"1\"\n",
+	"l2": "      a: \"2\"\n",
+	"l3": "      a: \"1\"\n      b: \"1\"\n",
+}
+
+// Span is the line range of one rendered rule.
+type Span struct {
+	First int `json:"first"`
+	Last  int `json:"last"`
+}
 
 // Expr renders a body token list as PromQL.
 func Expr(body string) string {
@@ -71,33 +82,49 @@ func Expr(body string) string {
 // the specification (FirstLine / LastLine) describes: optional file/disable line, three header lines,
 // then per rule [pad line] [control comment line] and four rule lines.
 func Render(f File) string {
+	s, _ := RenderSpans(f)
+	return s
+}
+
+// RenderSpans also returns where each rule was put (first line = the "- record:/- alert:" line, last line =
+// its last label line), counted while writing.
+func RenderSpans(f File) (string, []Span) {
 	var b strings.Builder
+	spans := []Span{}
+	line := 0
+	w := func(s string) {
+		b.WriteString(s)
+		line += strings.Count(s, "\n")
+	}
 	if f.Fdis {
-		b.WriteString("# pint file/disable promql/fragile\n")
+		w("# pint file/disable promql/fragile\n")
 	}
-	b.WriteString("groups:\n- name: g\n")
+	w("groups:\n- name: g\n")
 	if len(f.Rules) == 0 {
-		b.WriteString("  rules: []\n")
-		return b.String()
+		w("  rules: []\n")
+		return b.String(), spans
 	}
-	b.WriteString("  rules:\n")
+	w("  rules:\n")
 	for _, r := range f.Rules {
 		switch r.Pad {
 		case 1:
-			b.WriteString("\n")
+			w("\n")
 		case 2:
-			b.WriteString("  # just a note\n")
+			w("  # just a note\n")
 		}
 		if c, ok := cmtText[r.Cmt]; ok {
-			b.WriteString("  " + c + "\n")
+			w("  " + c + "\n")
 		}
 		key := "record"
 		if r.Kind == "alr" {
 			key = "alert"
 		}
-		fmt.Fprintf(&b, "  - %s: %s\n    expr: %s\n    labels:\n      a: %q\n", key, r.Name, Expr(r.Body), labText[r.Lab])
+		first := line + 1
+		w(fmt.Sprintf("  - %s: %s\n    expr: %s\n    labels:\n", key, r.Name, Expr(r.Body)))
+		w(labText[r.Lab])
+		spans = append(spans, Span{first, line})
 	}
-	return b.String()
+	return b.String(), spans
 }
 
 // ------------------------------------------------------------------ repository
@@ -208,6 +235,7 @@ func (r *Repo) BranchLog(base string) ([][]NS, error) {
 // the JSON report (the JSON reporter does not carry the diagnostic message).
 const MarkerConfig = `parser {
   include = [".+\\.yml"]
+  exclude = ["^drafts/.*"]
 }
 checks {
   enabled = ["rule/report", "rule/dependency"]
